@@ -44,6 +44,11 @@ class PathView:
                 # flag &= cond / flag |= cond on a local boolean: fold into the definition
                 op = ast.And() if isinstance(st.node.op, ast.BitAnd) else ast.Or()
                 env[st.node.target.id] = ast.BoolOp(op=op, values=[old_env[st.node.target.id], st.node.value])
+            elif st.kind == "stmt" and isinstance(st.node, ast.AugAssign) and isinstance(st.node.target, ast.Name) \
+                    and isinstance(st.node.op, ast.Add) and st.node.target.id in old_env and not _contains_await(st.node.value) \
+                    and st.node.target.id not in norm.names_in(st.node.value):
+                # acc += value on a local with a known definition: fold into the definition
+                env[st.node.target.id] = ast.BinOp(left=old_env[st.node.target.id], op=ast.Add(), right=st.node.value)
             elif st.kind == "stmt" and isinstance(st.node, ast.AnnAssign) and st.node.value is not None:
                 t = st.node.target
                 if isinstance(t, ast.Name) and t.id not in norm.names_in(st.node.value):
